@@ -143,6 +143,35 @@ Example C01_nonvacuous :
   length (parse_line (render_cmd cmd args)) = 3%nat.
 Proof. vm_compute. repeat split. Qed.
 
+(** Round 9: the hand-written regex matchers of the two models ARE the regexes of the source. The ASTs
+    (Gen/ParserLineRegexes.v) are regenerated from parser_line.rs / types.rs on every run by drive/regexsites.py, so a
+    changed literal breaks these proofs. For drain_env_tokens only the yes/no decision is tied (the model's [split_env]
+    also returns the two captured groups). *)
+From Cicada Require Import Base.Regex Gen.ParserLineRegexes Proofs.ParserLineRegexProofs.
+Theorem C01_is_an_env_is_source_regex : forall s, is_an_env s = rx_search rx_is_an_env s.
+Proof. exact is_an_env_is_source_regex. Qed.
+Theorem C01_split_env_is_source_regex : forall s,
+  (match split_env s with Some _ => true | None => false end) = rx_search rx_drain_env s.
+Proof. exact split_env_is_source_regex. Qed.
+Theorem C01_redir_fd_is_source_regex : forall s,
+  all_nd s = rx_search rx_redir_fd s /\ all_nd s = rx_search rx_redir_fd2 s.
+Proof. intros s. split; [apply all_nd_is_source_regex | apply all_nd_is_source_regex2]. Qed.
+Theorem C01_redir_gt_is_source_regex : forall s, has_char c_gt s = rx_search rx_redir_gt s.
+Proof. exact has_gt_is_source_regex. Qed.
+Check C01_is_an_env_is_source_regex : forall s, is_an_env s = rx_search rx_is_an_env s.
+Check C01_split_env_is_source_regex : forall s,
+  (match split_env s with Some _ => true | None => false end) = rx_search rx_drain_env s.
+Check C01_redir_fd_is_source_regex : forall s,
+  all_nd s = rx_search rx_redir_fd s /\ all_nd s = rx_search rx_redir_fd2 s.
+Check C01_redir_gt_is_source_regex : forall s, has_char c_gt s = rx_search rx_redir_gt s.
+(** non-vacuity: A_1=x y  is accepted by both sides, 1A= and =x by neither of the first; a digit string of another script *)
+Example C01_source_regex_nonvacuous :
+  rx_search rx_is_an_env [65;95;49;61;120;32;121] = true /\ rx_search rx_is_an_env [61;120] = false /\
+  rx_search rx_is_an_env [65;61;10] = false /\ rx_search rx_drain_env [65;61;10] = true /\
+  rx_search rx_redir_fd [50;1633] = true /\ rx_search rx_redir_fd [] = false /\
+  rx_search rx_redir_gt [97;62;98] = true.
+Proof. vm_compute. repeat split. Qed.
+
 Print Assumptions C01_tokenize.
 Print Assumptions C01_plan_quoted.
 Print Assumptions C01_tokenize_mixed.
@@ -152,3 +181,7 @@ Print Assumptions C01_plan_full.
 Print Assumptions C01_post_passes.
 Print Assumptions C01_split.
 Print Assumptions C01_esc_refuted.
+Print Assumptions C01_is_an_env_is_source_regex.
+Print Assumptions C01_split_env_is_source_regex.
+Print Assumptions C01_redir_fd_is_source_regex.
+Print Assumptions C01_redir_gt_is_source_regex.
